@@ -232,6 +232,10 @@ where
         self.session.set_session_stop_reason(reason)
     }
 
+    fn abandon_outcome_waiters(&mut self) {
+        self.session.abandon_outcome_waiters()
+    }
+
     fn session_stop_reason(&self) -> &Arc<OnceLock<SessionStopReason>> {
         self.session.session_stop_reason()
     }
